@@ -479,6 +479,7 @@ def logical_lines(text):
             continue
         for a, b in _OLDOPS.items():
             s = s.replace(a, b)
+        s = re.sub(r'"([^"\']*)"', r"'\1'", s)      # the regular backend prints character literals with single quotes
         m = re.match(r'((?:[a-z_]\w*:)?do(?:\d+)?[a-z_]\w*=)(.*)$', s)
         if m:       # an explicit unit stride is dropped by the regular backend
             parts, depth, cur = [], 0, ''
